@@ -19,6 +19,12 @@ def c_entries_full(o):
     return clist(['(mkRE %s %s %s)' % (rp(e['src']), rp(e['dst']), gen.c_conn(e['conn'])) for e in o['conns']])
 
 
+def c_dpeers(o):
+    """the analyzer's peers as the dot model wants them: string, external?, ip?, label name[kind], namespace"""
+    return clist(['(mkDP %s %s %s %s %s)' % (cstr(p['str']), cbool(p['ip'] or p.get('name') == 'ingress-controller'), cbool(p['ip']),
+                                            cstr('%s[%s]' % (p.get('name', ''), p.get('kind', ''))), cstr(p.get('ns', ''))) for p in o['peers']])
+
+
 def main(tier):
     run = core.Run('C09', tier)
     run.cov['rule'] = ('random worlds (IP ranges, multi-protocol port sets, ANP/BANP) and world pairs; the real formatter output of list {txt,md,csv,json,dot} and diff {txt,md,csv,dot}; '
@@ -51,7 +57,7 @@ def main(tier):
                 metas.append((cid, W, W2, d1, d2))
             outs = h.run(cmds)
             per = len(LIST_FORMATS) + len(DIFF_FORMATS)
-            lcases, dcases, info = [], [], {}
+            lcases, dcases, tcases, info = [], [], [], {}
             for j, (cid, W, W2, d1, d2) in enumerate(metas):
                 lo = dict(zip(LIST_FORMATS, outs[per * j: per * j + len(LIST_FORMATS)]))
                 do = dict(zip(DIFF_FORMATS, outs[per * j + len(LIST_FORMATS): per * (j + 1)]))
@@ -86,6 +92,7 @@ def main(tier):
                     else:
                         lcases.append('(mkFmt %s %s %s %s %s %s)' % (cnat(cid), c_entries_full(base), cstr(lo['txt']['out']), cstr(lo['md']['out']),
                                                                    cstr(lo['csv']['out']), cstr(lo['json']['out'])))
+                        tcases.append('(mkDot %s %s %s %s)' % (cnat(cid), c_entries_full(base), c_dpeers(lo['dot']), cstr(lo['dot']['out'])))
                 dt = do['txt']
                 if dt['outcome'] == 'ok' and not dt.get('diff_nil'):
                     wantd = fmt.api_diff_rows(dt)
@@ -162,7 +169,8 @@ def main(tier):
             text = ['From Coq Require Import List ZArith String.', 'From NP Require Import IntervalSet ConnSet World Build Connlist Diff Format RowInj.',
                     'Import ListNotations.', 'Open Scope Z_scope.', 'Definition lcases : list fmt_case := [', ';\n'.join(lcases), '].',
                     'Definition dcases : list dfmt_case := [', ';\n'.join(dcases), '].',
-                    'Definition MM := Eval vm_compute in fmt_mismatches lcases.', 'Definition DM := Eval vm_compute in dfmt_mismatches dcases.', 'Definition PM := Eval vm_compute in printable_mismatches lcases.', 'Print MM.', 'Print DM.', 'Print PM.']
+                    'Definition tcases : list dot_case := [', ';\n'.join(tcases), '].', 'Definition TM := Eval vm_compute in dot_mismatches tcases.',
+                    'Definition MM := Eval vm_compute in fmt_mismatches lcases.', 'Definition DM := Eval vm_compute in dfmt_mismatches dcases.', 'Definition PM := Eval vm_compute in printable_mismatches lcases.', 'Print MM.', 'Print DM.', 'Print PM.', 'Print TM.']
             rc, out, err = core.run_coq_text('\n'.join(text))
             if rc != 0:
                 raise RuntimeError('coqc on format cases failed: ' + err[-1500:])
@@ -171,6 +179,13 @@ def main(tier):
                 payload, lo, do = info[cid]
                 run.report(None, 'bytes-%s-%d' % (names[code], cid), dict(payload, format=names[code], output=lo[names[code]]['out']),
                            'list %s output differs byte-wise from the format model applied to the API result' % names[code])
+            tm = core.parse_pairs(out, 'TM')
+            if tm is None:
+                raise RuntimeError('no TM in coqc output')
+            for cid, code in tm[:4]:
+                payload, lo, do = info[cid]
+                run.report(None, 'bytes-dot-%d' % cid, dict(payload, format='dot', output=lo['dot']['out']),
+                           'list dot output differs byte-wise from the format model applied to the API result')
             pm = core.parse_pairs(out, 'PM')
             if pm is None:
                 raise RuntimeError('no PM in coqc output')
